@@ -49,9 +49,9 @@ theorem agree_step (cfg : Cfg) {s : State} {w : ChunkStore.World} (h : Agree s w
     refine ⟨h1, ?_, h3⟩
     show ChunkStore.put cfg.node.store s.recs s.now c [] [] (ChunkStore.nodeTtl cfg.node ttl) [] true = _
     rw [h1, h2]; rfl
-  | ingest c e => obtain ⟨a, b, c', _⟩ := ingest_frame cfg s c e; exact ⟨a.trans h1, c'.trans h2, b.trans h3⟩
-  | announce c e p pid addr ttl hint =>
-    obtain ⟨a, b, c', _⟩ := announce_frame cfg s c e p pid addr ttl hint; exact ⟨a.trans h1, c'.trans h2, b.trans h3⟩
+  | ingest c e same => obtain ⟨a, b, c', _⟩ := ingest_frame cfg s c e same; exact ⟨a.trans h1, c'.trans h2, b.trans h3⟩
+  | announce c e same p pid addr ttl hint =>
+    obtain ⟨a, b, c', _⟩ := announce_frame cfg s c e same p pid addr ttl hint; exact ⟨a.trans h1, c'.trans h2, b.trans h3⟩
   | reannounce c ttl hint =>
     obtain ⟨a, b, c', _⟩ := reannounce_frame cfg s c ttl hint; exact ⟨a.trans h1, c'.trans h2, b.trans h3⟩
   | lookup c => obtain ⟨a, b, c', _⟩ := lookup_frame cfg s c; exact ⟨a.trans h1, c'.trans h2, b.trans h3⟩
@@ -93,8 +93,8 @@ open EphVerif.Providers (Table)
 def locOps (cfg : Cfg) (s : State) : Op → List Providers.Op
   | .adv d => [.adv d]
   | .store c ttl hint => [.add c cfg.self (ChunkStore.nodeTtl cfg.node ttl * ns) hint]
-  | .ingest _ _ => []
-  | .announce c e p _ addr ttl hint =>
+  | .ingest _ _ _ => []
+  | .announce c e _ p _ addr ttl hint =>
     match manifestTtl cfg (wall cfg s) e with
     | none => []
     | some t => if addr = "" then [] else [.add c p (advertised cfg ttl t * ns) hint]
@@ -140,29 +140,34 @@ theorem lagree_step (cfg : Cfg) {s : State} {st : C06L.St} (h : LAgree s st) (op
     refine ⟨h1, ?_⟩
     show Providers.addContact st.t st.now c cfg.self _ hint = Providers.addContact s.locs s.now c cfg.self _ hint
     rw [h1, h2]
-  | ingest c e =>
-    refine ⟨h1.trans (ingest_frame cfg s c e).1.symm, ?_⟩
-    show st.t = (ingest cfg s c e).locs
-    unfold ingest; split <;> exact h2
-  | announce c e p pid addr ttl hint =>
+  | ingest c e same =>
+    refine ⟨h1.trans (ingest_frame cfg s c e same).1.symm, ?_⟩
+    show st.t = (ingest cfg s c e same).locs
+    unfold ingest
+    split
+    · exact h2
+    · split <;> exact h2
+  | announce c e same p pid addr ttl hint =>
     cases hm : manifestTtl cfg (wall cfg s) e with
     | none =>
-      have e1 : locOps cfg s (.announce c e p pid addr ttl hint) = [] := by simp only [locOps, hm]
-      have e2 : step cfg s (.announce c e p pid addr ttl hint) = s := by simp only [step, announce, hm]
+      have e1 : locOps cfg s (.announce c e same p pid addr ttl hint) = [] := by simp only [locOps, hm]
+      have e2 : step cfg s (.announce c e same p pid addr ttl hint) = s := by simp only [step, announce, hm]
       rw [e1, e2]; exact ⟨h1, h2⟩
     | some t =>
       by_cases ha : addr = ""
-      · have e1 : locOps cfg s (.announce c e p pid addr ttl hint) = [] := by simp only [locOps, hm, ha, if_true]
-        have e2 : step cfg s (.announce c e p pid addr ttl hint) = acceptManifest cfg s c e t := by
+      · have e1 : locOps cfg s (.announce c e same p pid addr ttl hint) = [] := by simp only [locOps, hm, ha, if_true]
+        have e2 : (step cfg s (.announce c e same p pid addr ttl hint)).now = s.now ∧
+            (step cfg s (.announce c e same p pid addr ttl hint)).locs = s.locs := by
           simp only [step, announce, hm, ha, if_true]
-        rw [e1, e2]; exact ⟨h1, h2⟩
-      · have e1 : locOps cfg s (.announce c e p pid addr ttl hint) = [.add c p (advertised cfg ttl t * ns) hint] := by
+          split <;> exact ⟨rfl, rfl⟩
+        rw [e1]; exact ⟨h1.trans e2.1.symm, h2.trans e2.2.symm⟩
+      · have e1 : locOps cfg s (.announce c e same p pid addr ttl hint) = [.add c p (advertised cfg ttl t * ns) hint] := by
           simp only [locOps, hm, ha, if_false]
-        have e2 : (step cfg s (.announce c e p pid addr ttl hint)).now = s.now ∧
-            (step cfg s (.announce c e p pid addr ttl hint)).locs =
+        have e2 : (step cfg s (.announce c e same p pid addr ttl hint)).now = s.now ∧
+            (step cfg s (.announce c e same p pid addr ttl hint)).locs =
               Providers.addContact s.locs s.now c p (advertised cfg ttl t * ns) hint := by
           simp only [step, announce, hm, ha, if_false, advertised]
-          exact ⟨rfl, rfl⟩
+          split <;> exact ⟨rfl, rfl⟩
         rw [e1]
         refine ⟨h1.trans e2.1.symm, ?_⟩
         rw [e2.2]
